@@ -243,3 +243,37 @@ Theorem C04_mapseq_xmlindent_is_root_sel : forall nmx (ext : enc_fn) dec st m pr
   finish_nmx nmx st dec (ext true [] (fst (root_sel_indent m rt)) (snd (root_sel_indent m rt)) indent 0%Z prefix 0%Z 0%Z).
 Proof. exact mapseq_xmlindent_is_root_sel. Qed.
 Print Assumptions C04_mapseq_xmlindent_is_root_sel.
+
+(* ---- the sequence encoder in INDENTED mode (doIndent = true), translated from the current sources with the translated
+   pretty.Indent / Outdent, escapeChars and Less: the items of the compact mode, each written as in compact mode, with only pads
+   (newlines, the prefix followed by copies of the indent) before them - in the gap form seq_roundtrip quantifies over when prefix
+   and indent are blanks; an error where the model errs, a panic exactly where the model panics (GenProofs/PureG31.v) *)
+From Mxj Require GenProofs.PureG28 GenProofs.PureG31.
+
+Theorem C04_senc_indent_code_is_model : forall o st mar mari,
+  senc_view st o ->
+  forall prefix indent m t i c p m' t', PureG28.pp_reach st prefix indent m t (i, c, p, m', t') ->
+  forall f v sb key, vd v < f -> text_ok o v = true ->
+  (forall its, senc o v key = Ok its ->
+     exists out,
+       fn_mapToXmlSeqIndent (PureG15.run_escapeChars st) (PureG28.run_Indent st) (PureG28.run_Outdent st) (run_sort st) mar mari f st true sb key v i c p m' t' =
+       Ret (None, (sb ++ out, i, c, p, m', t')) /\
+       PureG31.spadded prefix indent its out) /\
+  (forall e0, senc o v key = Err e0 -> no_marshal v = true ->
+     exists sb',
+       fn_mapToXmlSeqIndent (PureG15.run_escapeChars st) (PureG28.run_Indent st) (PureG28.run_Outdent st) (run_sort st) mar mari f st true sb key v i c p m' t' =
+       Ret (Some EOther, (sb', i, c, p, m', t'))) /\
+  (senc o v key = Panic ->
+     fn_mapToXmlSeqIndent (PureG15.run_escapeChars st) (PureG28.run_Indent st) (PureG28.run_Outdent st) (run_sort st) mar mari f st true sb key v i c p m' t' = Crash).
+Proof. exact PureG31.senc_indent_code_is_model_translated. Qed.
+Print Assumptions C04_senc_indent_code_is_model.
+
+Theorem C04_senc_indent_code_insert_ws : forall o st mar mari,
+  senc_view st o ->
+  forall lp li m t i c p m' t', PureG28.pp_reach st (SeqSpec.ws_str lp) (SeqSpec.ws_str li) m t (i, c, p, m', t') ->
+  forall f v sb key its, vd v < f -> text_ok o v = true -> senc o v key = Ok its ->
+  exists ws,
+    fn_mapToXmlSeqIndent (PureG15.run_escapeChars st) (PureG28.run_Indent st) (PureG28.run_Outdent st) (run_sort st) mar mari f st true sb key v i c p m' t' =
+    Ret (None, (sb ++ semit (SeqSpec.insert_ws ws its), i, c, p, m', t')).
+Proof. exact PureG31.senc_indent_code_insert_ws. Qed.
+Print Assumptions C04_senc_indent_code_insert_ws.
